@@ -35,6 +35,9 @@ pub enum Fault {
     /// serve the range correctly, but with `Transfer-Encoding: chunked` and no Content-Length (one HTTP
     /// chunk per flushed piece of the body)
     Chunked,
+    /// send the head (full Content-Length) and the first k body bytes, then go silent for 4 seconds
+    /// before closing: only a receive timeout of the client ends the wait earlier
+    Stall(usize),
     /// redirect to self
     Redirect,
     /// this and every later request is redirected to a fresh URL of this server, up to the given
@@ -252,6 +255,10 @@ fn handle(mut stream: TcpStream, shared: Arc<Mutex<Shared>>) {
                 declared = Some(body.len());
                 close_after = Some((*k).min(body.len()));
             }
+            Fault::Stall(k) => {
+                declared = Some(body.len());
+                close_after = Some((*k).min(body.len()));
+            }
             Fault::ShortBody(k) => body.truncate(*k),
             Fault::WrongBytes => body.iter_mut().for_each(|x| *x ^= 0x55),
             Fault::ErrorPage(st) => {
@@ -324,6 +331,9 @@ fn handle(mut stream: TcpStream, shared: Arc<Mutex<Shared>>) {
             if c < send {
                 std::thread::sleep(Duration::from_micros(1500));
             }
+        }
+        if matches!(fault, Fault::Stall(_)) {
+            std::thread::sleep(Duration::from_secs(4));
         }
         if chunked && ok {
             ok = stream.write_all(b"0\r\n\r\n").is_ok() && stream.flush().is_ok();
